@@ -27,8 +27,9 @@ def std_runs(profiles, nq=120, nt=1500, extra_feats=('nofin', 'noweak', 'noauto'
     for f in extra_feats[:2]:
         quick.append((f, False, profiles, max(8, nq // 5)))
     quick.append(('full', True, profiles, max(8, nq // 5)))
+    quick.append(('pedantic', False, profiles, max(8, nq // 5)))
     thorough = [('full', False, profiles, nt), ('full', True, profiles, nt // 2)]
-    for f in extra_feats:
+    for f in tuple(extra_feats) + ('pedantic',):
         thorough.append((f, False, profiles, nt // 4))
     return R(quick, thorough)
 
